@@ -706,8 +706,8 @@ static std::string run_op(const std::string& op, Toks& tk, ContentPtr& result) {
     ContentPtr x = input_layout(tk);
     RecordArray* rec = dynamic_cast<RecordArray*>(x.get());
     if (rec == nullptr) throw std::logic_error("driver: setitem_field needs a RecordArray");
-    bool isnum = !where.empty() && where.find_first_not_of("0123456789") == std::string::npos;
-    if (isnum && rec->istuple()) result = rec->setitem_field((int64_t)strtoll(where.c_str(), nullptr, 10), what);
+    // "i:<n>" = the integer overload (insert at position n), anything else = the string overload (append a key)
+    if (where.size() > 2 && where[0] == 'i' && where[1] == ':') result = rec->setitem_field((int64_t)strtoll(where.c_str() + 2, nullptr, 10), what);
     else result = rec->setitem_field(where, what);
   }
   else if (op == "carry") {
